@@ -29,6 +29,10 @@ class StepBudget(SxAbort):
     pass
 
 
+class HarnessBug(SxAbort):
+    """an exception raised by harness/environment code (no nfc frame)"""
+
+
 class Nondeterminism(SxAbort):
     pass
 
@@ -84,12 +88,24 @@ class Ctx:
         self.nvars += 1
         if name in self.inputs:
             raise Nondeterminism("duplicate input name " + name)
-        x = z3.BitVec(name, W)
-        dom = z3.And(x >= lo, x <= hi)
-        self.solver.add(dom)
-        if self.model is not None and len(self.trail) >= len(self.prefix) \
-                and not z3.is_true(self.model.eval(dom, model_completion=True)):
-            self.model = None  # stale: does not cover the new variable
+        # narrow variable, zero-extended: no domain constraint needed when the
+        # range is a power of two, and much lighter bit-blasting
+        span = hi - lo
+        k = max(span.bit_length(), 1)
+        if k < W - 1:
+            v = z3.BitVec(name, k)
+            x = z3.ZeroExt(W - k, v)
+            if lo != 0:
+                x = x + bv(lo)
+            dom = None if span == (1 << k) - 1 else z3.ULE(v, z3.BitVecVal(span, k))
+        else:
+            x = z3.BitVec(name, W)
+            dom = z3.And(x >= lo, x <= hi)
+        if dom is not None:
+            self.solver.add(dom)
+            if self.model is not None and len(self.trail) >= len(self.prefix) \
+                    and not z3.is_true(self.model.eval(dom, model_completion=True)):
+                self.model = None  # stale: does not cover the new variable
         self.inputs[name] = x
         return SymInt(x, lo, hi)
 
@@ -205,8 +221,9 @@ class Ctx:
             self.violations.append((msg, self.assignment(self.solver.model())))
             if not self._check(cond):
                 raise Infeasible()
+            m = self.solver.model()     # before add(): add() drops the model
             self.solver.add(cond)
-            self.model = self.solver.model()
+            self.model = m
             return False
         self.stats['discharged'] += 1
         return True
